@@ -16,6 +16,13 @@ Theorem C17_at_most_n_per_window : forall (n : nat) (w t0 : Z) ls s',
 Proof. exact at_most_n_per_window. Qed.
 Print Assumptions C17_at_most_n_per_window.
 
+(** the same, counted: for every instant a, at most n admissions fall into [a, a + w) *)
+Theorem C17_at_most_n_in_any_window : forall (n : nat) (w t0 : Z) ls s',
+  (0 < n)%nat -> stable ls = true -> run (init n w t0) ls = Some s' ->
+  forall a, (length (filter (in_window a w) (handovers ls)) <= n)%nat.
+Proof. exact at_most_n_in_any_window. Qed.
+Print Assumptions C17_at_most_n_in_any_window.
+
 (** SetMaxEvents keeps the newest stamps, oldest at the cursor; new capacity is empty slots in
     front of them ("the oldest events will be forgotten" / "capacity for new reservations"). *)
 Theorem C17_set_max_events_keeps_newest : forall n s, wf s ->
@@ -25,6 +32,15 @@ Theorem C17_set_max_events_keeps_newest : forall n s, wf s ->
               window s' = window s /\ ph s' = ph s /\ now s' = now s)).
 Proof. exact set_max_events_view. Qed.
 Print Assumptions C17_set_max_events_keeps_newest.
+
+(** The state anchor of the property ("ring of the last N admission times, cursor at the
+    oldest"), for every history including reconfigurations in any phase of the loop: read from
+    the cursor, the ring is empty slots followed by the newest stamps stored so far, in order. *)
+Theorem C17_ring_remembers_newest : forall n0 w0 t0 ls s, run (init n0 w0 t0) ls = Some s ->
+  exists k, (k <= length (records ls))%nat /\ (k <= length (ring s))%nat /\
+            view s = repeat 0 (length (ring s) - k) ++ newest k (records ls).
+Proof. exact ring_remembers_newest. Qed.
+Print Assumptions C17_ring_remembers_newest.
 
 (** After the limit or the window has been changed at run time (any history [ls1], including
     reconfigurations at any phase of the loop): in the following reconfiguration-free stretch
@@ -40,6 +56,39 @@ Theorem C17_spacing_after_last_change : forall n0 w0 t0 ls1 s ls2 s',
     nth j (mem s ++ records ls2) 0 + window s <= nth j (handovers ls2) 0.
 Proof. exact spacing_after_last_change. Qed.
 Print Assumptions C17_spacing_after_last_change.
+
+(** What does not hold.  (R1) the code before the fix 065c919: growing left the cursor on the
+    oldest stamp, shrinking then kept empty slots and dropped live stamps — a fourth admission
+    within 199 of a 600 window at limit 3, computed under that very configuration. *)
+Theorem C17_grow_shrink_forgets_live_stamp_orig_refuted :
+  exists ls1 s ls2 s',
+    run_orig (init 3 600 10000) ls1 = Some s /\ stable ls2 = true /\ run_orig s ls2 = Some s' /\
+    length (ring s) = 3%nat /\ window s = 600 /\
+    let A := handovers (ls1 ++ ls2) in
+    (length (handovers ls1) + inflight s <= 5)%nat /\ nth 5 A 0 - nth 2 A 0 < 600 /\
+    view s = [0; 0; 10600].
+Proof. exact grow_shrink_forgets_live_stamp_orig_refuted. Qed.
+Print Assumptions C17_grow_shrink_forgets_live_stamp_orig_refuted.
+
+(** (R2), (R3): the unconditional reading of "also after the limit has been changed" is false of
+    the code as designed and documented: an offer computed before the change is honoured after
+    it, and lowering the limit forgets the oldest events for good. *)
+Theorem C17_offer_before_change_is_honoured_refuted :
+  exists ls1 s ls2 s',
+    run (init 2 600 10000) ls1 = Some s /\ stable ls2 = true /\ run s ls2 = Some s' /\
+    length (ring s) = 1%nat /\ window s = 600 /\
+    last (handovers ls1) 0 = 10500 /\ handovers ls2 = [10600] /\ inflight s = 1%nat.
+Proof. exact offer_before_change_is_honoured_refuted. Qed.
+Print Assumptions C17_offer_before_change_is_honoured_refuted.
+
+Theorem C17_shrink_then_grow_forgets_refuted :
+  exists ls1 s ls2 s',
+    run (init 3 600 10000) ls1 = Some s /\ stable ls2 = true /\ run s ls2 = Some s' /\
+    length (ring s) = 3%nat /\ window s = 600 /\
+    let A := handovers (ls1 ++ ls2) in
+    (length (handovers ls1) + inflight s <= 4)%nat /\ nth 4 A 0 - nth 1 A 0 < 600.
+Proof. exact shrink_then_grow_forgets_refuted. Qed.
+Print Assumptions C17_shrink_then_grow_forgets_refuted.
 
 (** A waiter whose context is cancelled changes nothing (no slot is consumed), and its return
     never has to wait for the limiter. *)
